@@ -109,13 +109,14 @@ def stochastic_nodes(obj, acc=None, seen=None):
         return acc
     seen.add(id(obj))
     if isinstance(obj, iso.Pattern):
-        if hasattr(obj, "rng") and hasattr(obj, "_seed"):
+        # (not hasattr(): PDict.__getattr__ answers a missing attribute with KeyError)
+        if isinstance(obj, iso.PStochasticPattern):
             acc.append(obj)
         for f in vars(obj).values():
             if isinstance(f, iso.Pattern):
                 stochastic_nodes(f, acc, seen)
-            elif isinstance(f, (list, tuple)):
-                for x in f:
+            elif isinstance(f, (list, tuple, dict)):
+                for x in (f.values() if isinstance(f, dict) else f):
                     if isinstance(x, iso.Pattern):
                         stochastic_nodes(x, acc, seen)
     return acc
